@@ -11,7 +11,7 @@ class C13(framework.PropertyCheck):
     thorough_cases = 5000
     rule = ('random bodies of the trace-reading fragment (arithmetic/logic over signals, @ offsets, another virtual signal, ~/# references '
             'captured by in-scope / in-group at definition) x visit orders of length<=10 (forward, backward, random jumps, reads via @k, via '
-            'find/count/whenever, repeated reads, an intervening sample-at); optionally the name is queried before the definition, an earlier definition of the same name is read at every index and then replaced, or a grouped evaluation inside a captured scope precedes the definition; at every visit the virtual signal is compared with its body text '
+            'find/count/whenever, repeated reads, an intervening sample-at, a sub-sampling read everywhere and then undone by a sample-at over all indices); optionally the name is queried before the definition, an earlier definition of the same name is read at every index and then replaced, or a grouped evaluation inside a captured scope precedes the definition; at every visit the virtual signal is compared with its body text '
             'evaluated in place; non-trivial = some index is read at least twice with a different index read in between, or a sample-at occurs')
     assumptions = ['single trace (defsig registers signals under the qualified name with several traces, outside the property)',
                    'strictly increasing timestamps; bodies without their own in-scope/in-group']
@@ -81,6 +81,13 @@ class C13(framework.PropertyCheck):
             if kind == 'dep':
                 keep = sorted(rng.sample(range(N), max(1, N // 2)))
                 visits = [['at', i] for i in range(N)] + [['sample', keep]] + [['at', j] for j in range(len(keep))] + [['find', 0]] + visits[:3]
+            if N >= 3 and rng.random() < 0.3:
+                # a sub-sampling, every remaining index read, then back to the complete trace: what was computed between the
+                # sparser samples must not be served once all samples are there again
+                keep = sorted(rng.sample(range(N), rng.randint(1, N - 1)))
+                back = [['sample', keep]] + [['at', j] for j in range(len(keep))] + [['rel', j, rng.choice([-1, 1])] for j in range(len(keep))] + \
+                       [['sample', list(range(N))]] + [['at', i] for i in range(N)] + [['find', 0]]
+                visits = visits[:rng.randint(0, 3)] + back
             case = {'N': N, 'seed': rng.randrange(1 << 30), 'define': define, 'name': name, 'body': body, 'visits': visits}
             if rng.random() < 0.4:
                 case['probe_before'] = True          # the name is asked for before it exists
